@@ -484,9 +484,13 @@ func (w *World) c12Sender(r *verifutil.Rng, v *Replica, t types.TxType) *Actor {
 	case types.DeleteFlipTx:
 		pref = func(a *Actor, id state.Identity) bool { return len(id.Flips) > 0 }
 	case types.DelegateTx:
-		pref = func(a *Actor, id state.Identity) bool { return id.State != state.Undefined && id.Delegatee() == nil && !vc.IsPool(a.Addr) }
+		pref = func(a *Actor, id state.Identity) bool {
+			return id.State != state.Undefined && id.Delegatee() == nil && !vc.IsPool(a.Addr)
+		}
 	case types.UndelegateTx:
-		pref = func(a *Actor, id state.Identity) bool { return id.Delegatee() != nil || st.DelegationSwitch(a.Addr) != nil }
+		pref = func(a *Actor, id state.Identity) bool {
+			return id.Delegatee() != nil || st.DelegationSwitch(a.Addr) != nil
+		}
 	case types.KillDelegatorTx:
 		pref = func(a *Actor, id state.Identity) bool { return vc.IsPool(a.Addr) }
 	case types.CallContractTx, types.TerminateContractTx:
